@@ -42,6 +42,9 @@ def atom_of(v, reg: Registry):
     return ['o', '0']
 
 
+_ALIAS_PATH: list = []
+
+
 def is_union(h) -> bool:
     return T.get_origin(h) is T.Union or isinstance(h, types.UnionType)
 
@@ -60,6 +63,16 @@ def hint_model(h, reg: Registry):
         return ['any']
     if hasattr(h, '__supertype__'):                     # NewType
         return hint_model(h.__supertype__, reg)
+    if isinstance(h, T.TypeAliasType):
+        # PEP 695 `type A = …`: the aliased hint. A recursive alias is expanded twice along one path (itself and
+        # its first inner occurrence); the next occurrence is ignorable (`list[A]` there is checked as `list`)
+        if sum(1 for a in _ALIAS_PATH if a is h) >= 2:
+            return ['any']
+        _ALIAS_PATH.append(h)
+        try:
+            return hint_model(h.__value__, reg)
+        finally:
+            _ALIAS_PATH.pop()
     if isinstance(h, type) and not isinstance(h, types.GenericAlias):
         if getattr(h, '_is_protocol', False) or any(T.get_origin(b) is not None for b in getattr(h, '__orig_bases__', ())):
             # protocols and unsubscripted user generics: Hint.generic — `isinstance(<assignment expression>, C)` and then
@@ -72,7 +85,7 @@ def hint_model(h, reg: Registry):
         # subscripted user generic `Box[int]` with `class Box(list[T])`: Hint.generic Box [list[int]]
         return generic_model(origin, args, reg)
     if is_union(h):
-        return union_model([hint_model(a, reg) for a in union_members(h)])
+        return union_model([member_model(a, tr, reg) for a, tr in union_members(h)])
     if origin is T.Literal:
         return ['literal'] + [[reg.id(type(a)), atom_of(a, reg)] for a in args]
     if origin is T.Annotated:
@@ -134,31 +147,48 @@ def generic_model(origin, args, reg: Registry):
     return out
 
 
-def shallow_reduce(a):
-    """What sanify_hint_child does to ONE node before the union factory looks at it."""
+def shallow_reduce(a, trail=None):
+    """What sanify_hint_child does to ONE node before the union factory looks at it. `trail` collects the PEP 695
+    aliases unwrapped on the way (they count as expansions for whatever is modelled beneath)."""
     if isinstance(a, T.TypeVar):
         if a.__bound__ is not None:
-            return shallow_reduce(a.__bound__)
+            return shallow_reduce(a.__bound__, trail)
         if a.__constraints__:
             return T.Union[a.__constraints__]
         return T.Any
+    if isinstance(a, T.TypeAliasType):
+        if any(b is a for b in _ALIAS_PATH) or (trail is not None and any(b is a for b in trail)):
+            raise NotImplementedError('recursive alias as a direct member of a union')
+        if trail is not None:
+            trail.append(a)
+        return shallow_reduce(a.__value__, trail)
     if hasattr(a, '__supertype__'):
-        return shallow_reduce(a.__supertype__)
+        return shallow_reduce(a.__supertype__, trail)
     if a is None:
         return type(None)
     return a
 
 
-def union_members(h) -> list:
+def union_members(h, trail=()) -> list:
     """Members of a union as the union factory sees them: each member reduced at its own
-    node only, nested unions flattened, duplicates (equal reduced hints) dropped."""
+    node only, nested unions flattened, duplicates (equal reduced hints) dropped. Each member comes with the
+    aliases unwrapped to reach it."""
     out = []
     for a in T.get_args(h):
-        a = shallow_reduce(a)
-        for b in (union_members(a) if is_union(a) else [a]):
-            if not any(b is c or (type(b) is type(c) and b == c) for c in out):
-                out.append(b)
+        t = list(trail)
+        a = shallow_reduce(a, t)
+        for b, tb in (union_members(a, tuple(t)) if is_union(a) else [(a, tuple(t))]):
+            if not any(b is c or (type(b) is type(c) and b == c) for c, _ in out):
+                out.append((b, tb))
     return out
+
+
+def member_model(a, trail, reg):
+    _ALIAS_PATH.extend(trail)
+    try:
+        return hint_model(a, reg)
+    finally:
+        del _ALIAS_PATH[len(_ALIAS_PATH) - len(trail):]
 
 
 def union_model(children: list):
